@@ -2,9 +2,13 @@ module verif/engine
 
 go 1.23
 
-require golang.org/x/tools v0.29.0
+require (
+	github.com/openconfig/goyang v1.6.0
+	golang.org/x/tools v0.29.0
+)
 
 require (
+	github.com/google/go-cmp v0.6.0 // indirect
 	golang.org/x/mod v0.22.0 // indirect
 	golang.org/x/sync v0.10.0 // indirect
 )
